@@ -168,8 +168,8 @@ PROPS["C14"] = {
 
 PROPS["C07"] = {
     "asan": True,
-    "quick": [("abuse", 240, 100), ("gc", 80, 100), ("limits", 30, 80), ("slice", 40, 30), ("merge", 60, 0), ("ser", 20, 60), ("render", 30, 40), ("script", 150, 12), ("scriptfault", 100, 6), ("label17", 300, 3), ("hex15", 10, 9)],
-    "thorough": [("abuse", 6000, 250), ("gc", 1500, 250), ("limits", 300, 150), ("cycle", 56, 300), ("slice", 800, 50), ("merge", 2000, 0), ("mergebroken", 1000, 0), ("ser", 300, 120), ("render", 500, 80), ("fork", 500, 150), ("script", 1000, 12), ("scriptfault", 2000, 6)],
+    "quick": [("abuse", 240, 100), ("join", 150, 10), ("gc", 80, 100), ("limits", 30, 80), ("slice", 40, 30), ("merge", 60, 0), ("ser", 20, 60), ("render", 30, 40), ("script", 150, 12), ("scriptfault", 100, 6), ("label17", 300, 3), ("hex15", 10, 9)],
+    "thorough": [("abuse", 6000, 250), ("join", 4000, 14), ("gc", 1500, 250), ("limits", 300, 150), ("cycle", 56, 300), ("slice", 800, 50), ("merge", 2000, 0), ("mergebroken", 1000, 0), ("ser", 300, 120), ("render", 500, 80), ("fork", 500, 150), ("script", 1000, 12), ("scriptfault", 2000, 6)],
     "rule": "every operation file is executed by a harness built with AddressSanitizer (debug assertions on): valid profiles and the abuse profile (ids cap, cap+1, cap+1000, usize::MAX; N+1 labels; groups driven to 17-19 members; a 15th-17th group; calls on absent vertices; bind v v); per call the outcome (ok / panic) and the observations must equal the model's; after the first panic of a handle the harness keeps executing calls on it (soak mode) and the model follows it with the total step stepT of Core/Total.lean (the state the panic left behind), so every later call is compared too, and the internal snapshot of the hook at the end of the history is compared as latent information; any sanitizer report, abort or signal is a violation with the operation file as replay; non-trivial = a history with >= 5 judged calls",
     "nontrivial": "any5",
     "modelled": CORE_MODELLED + ["PARTIAL: the unsafe code of emap/micromap/microstack and the allocator are examined under AddressSanitizer on the generated inputs, not proved; MaybeUninit::assume_init in microstack::Stack::new (language-level UB that ASan does not see) is recorded as an observation about the dependency"],
